@@ -166,11 +166,18 @@ pub ghost struct Heap {
     pub task_events: Seq<(Tid, TaskState)>,   // Scheduler::emit_task_event(task) calls: (tid, state at the time)
     pub proc_events: Seq<TaskState>,     // Scheduler::emit_proc_event calls: process state at the time
     pub msg_closed: Seq<(Seq<char>, Seq<char>, MessageStatus)>,   // Store::set_message_with(pid, tid, status) calls
+    pub upserts: Seq<Tid>,               // Cache::upsert(task) calls (task row written to the store)
+    pub messages: Seq<(Tid, MessageState)>,   // messages handed to Emitter::emit_message for a task: (tid, message state)
     pub now: int,
     pub action: Option<Action>,          // Context.action (RefCell): the client action being processed
     pub next_seq: nat,                   // ghost: creation index of the next task
 }
 pub const ROOT_TID: &'static str = "$";
+// catches are registered under ErrorCatch and timeouts under Timeout only (Step::init / Act::init); every other lifecycle list holds plain statements
+pub open spec fn hooks_ok(h: Heap) -> bool {
+    forall|t: Tid, k: TaskLifeCycle, i: int| #![trigger h.hooks[t][k][i]] h.hooks.dom().contains(t) && h.hooks[t].dom().contains(k) && 0 <= i < h.hooks[t][k].len()
+        && !(k is ErrorCatch) && !(k is Timeout) ==> h.hooks[t][k][i] is Statement
+}
 // the prev task exists (opaque: revealing it inside a quantifier over tasks would loop along the prev chain)
 #[verifier::opaque]
 pub open spec fn prev_in(h: Heap, t: Tid) -> bool { h.tasks[t].prev is Some ==> h.tasks.dom().contains(h.tasks[t].prev->Some_0) }
@@ -178,15 +185,17 @@ pub open spec fn prev_in(h: Heap, t: Tid) -> bool { h.tasks[t].prev is Some ==> 
 impl Heap {
     // heap invariant kept by every primitive (lemma_stub_consequences):
     //  - the context's current task exists
-    //  - the process mirrors its root task: same state once the root is terminal, not terminal before (task.rs set_state / context.rs emit_task)
+    //  - the process mirrors its root task: same state once the root is terminal, not terminal before (task.rs set_state / context.rs emit_task);
+    //    stated for a root task that was never revived by a catch (workflows declare no catches; a revived root is outside the mirror)
     //  - an error is recorded only on a task in state Error (set_state clears it otherwise); only the root task sits on the workflow node
     pub open spec fn wf(&self) -> bool {
         &&& self.has(self.cur)
-        &&& (self.has(ROOT_TID@) ==> (if st_terminal(self.st(ROOT_TID@)) { self.proc_state == self.st(ROOT_TID@) } else { !st_terminal(self.proc_state) }))
+        &&& (self.has(ROOT_TID@) && self.tasks[ROOT_TID@].revived == 0 ==> (if st_terminal(self.st(ROOT_TID@)) { self.proc_state == self.st(ROOT_TID@) } else { !st_terminal(self.proc_state) }))
         &&& forall|t: Tid| #[trigger] self.has(t) ==> (self.tasks[t].err is Some ==> self.st(t) is Error) && (self.tasks[t].node.s_kind() == NodeKind::Workflow <==> t == ROOT_TID@)
             && (self.tasks[t].revived > 0 ==> catch_flag(self.tasks[t]))
         // a task is created after its prev task (process.rs create_task): prev links are acyclic
         &&& forall|t: Tid| #[trigger] self.has(t) ==> self.tasks[t].seq < self.next_seq && prev_in(*self, t)
+        &&& hooks_ok(*self)
         &&& forall|t: Tid, p: Tid| #[trigger] self.has(t) && #[trigger] self.has(p) && self.tasks[t].prev == Some(p) ==> self.tasks[p].seq < self.tasks[t].seq
     }
     pub open spec fn has(&self, t: Tid) -> bool { self.tasks.dom().contains(t) }
@@ -209,8 +218,8 @@ pub open spec fn task_fwd(a: TaskAbs, b: TaskAbs) -> bool {
 pub open spec fn fwd(a: Heap, b: Heap) -> bool {
     &&& forall|t: Tid| #[trigger] a.has(t) ==> b.has(t) && task_fwd(a.tasks[t], b.tasks[t])
     &&& forall|t: Tid| #[trigger] b.has(t) && !a.has(t) ==> b.tasks[t].revived <= 1
-    &&& legal(a.proc_state, b.proc_state)
     &&& a.queue.is_prefix_of(b.queue) && a.task_events.is_prefix_of(b.task_events) && a.proc_events.is_prefix_of(b.proc_events) && a.msg_closed.is_prefix_of(b.msg_closed)
+    &&& a.upserts.is_prefix_of(b.upserts) && a.messages.is_prefix_of(b.messages)
 }
 pub proof fn lemma_task_fwd_trans(a: TaskAbs, b: TaskAbs, c: TaskAbs)
     requires task_fwd(a, b), task_fwd(b, c)
@@ -228,20 +237,7 @@ pub broadcast proof fn lemma_fwd_trans(a: Heap, b: Heap, c: Heap)
     assert forall|t: Tid| #[trigger] c.has(t) && !a.has(t) implies c.tasks[t].revived <= 1 by {
         if b.has(t) { assert(task_fwd(b.tasks[t], c.tasks[t])); }
     }
-    assert(legal(a.proc_state, c.proc_state));
 }
-pub proof fn lemma_set_state_fwd(h: Heap, t: Tid, s: TaskState)
-    requires h.has(t), legal(h.st(t), s) || catch_revive(h.tasks[t], s), legal(h.proc_state, if st_terminal(s) && t == ROOT_TID@ { s } else { h.proc_state })
-    ensures fwd(h, set_state_spec(h, t, s))
-{
-    let g = set_state_spec(h, t, s);
-    assert forall|x: Tid| #[trigger] h.has(x) implies g.has(x) && task_fwd(h.tasks[x], g.tasks[x]) by {
-        if x == t {
-            if h.st(t) is Error && s is Running { assert(catch_revive(h.tasks[t], s) || legal(h.st(t), s)); }
-        }
-    }
-}
-
 // ---- engine objects (lock fields replaced by the ghost heap) ---------------------------------
 pub struct Task { pub pid: String, pub id: String, pub timestamp: i64, pub node: Arc<Node>, pub proc: Arc<Process> }
 #[verifier::external_body]
@@ -292,8 +288,7 @@ impl Task {
             *final(h) == set_state_spec(*old(h), self.id@, state),
             // consequences (lemma_set_state_fwd), stated for the callers' benefit
             final(h).cur == old(h).cur, final(h).has(self.id@),
-            (self.id@ != ROOT_TID@ || !st_terminal(state) || legal(old(h).proc_state, state)) ==> fwd(*old(h), *final(h)),
-            old(h).wf() && !(self.id@ == ROOT_TID@ && old(h).st(self.id@) is Error && state is Running) ==> final(h).wf() && fwd(*old(h), *final(h)),
+            fwd(*old(h), *final(h)), old(h).wf() ==> final(h).wf(),
     { unimplemented!() }
     #[verifier::external_body]
     pub fn set_err(&self, err: &Error, Tracked(h): Tracked<&mut Heap>)
@@ -389,17 +384,15 @@ impl Process {
     // process.rs: set_state (state + start/end time)
     #[verifier::external_body]
     pub fn set_state(&self, state: TaskState, Tracked(h): Tracked<&mut Heap>)
-        requires legal(old(h).proc_state, state)
         ensures *final(h) == (Heap { proc_state: state, ..*old(h) }),
                 fwd(*old(h), *final(h)), final(h).cur == old(h).cur,     // consequences
-                old(h).wf() && (if old(h).has(ROOT_TID@) && st_terminal(old(h).st(ROOT_TID@)) { state == old(h).st(ROOT_TID@) } else { !st_terminal(state) }) ==> final(h).wf(),
+                old(h).wf() && (old(h).has(ROOT_TID@) && old(h).tasks[ROOT_TID@].revived == 0 ==> (if st_terminal(old(h).st(ROOT_TID@)) { state == old(h).st(ROOT_TID@) } else { !st_terminal(state) })) ==> final(h).wf(),
     { unimplemented!() }
     #[verifier::external_body]
     pub fn set_err(&self, err: &Error, Tracked(h): Tracked<&mut Heap>)
-        requires legal(old(h).proc_state, TaskState::Error)
         ensures *final(h) == (Heap { proc_state: TaskState::Error, proc_err: Some(*err), ..*old(h) }),
                 fwd(*old(h), *final(h)), final(h).cur == old(h).cur,     // consequences
-                old(h).wf() && old(h).has(ROOT_TID@) && old(h).st(ROOT_TID@) is Error ==> final(h).wf(),
+                old(h).wf() && (old(h).has(ROOT_TID@) && old(h).tasks[ROOT_TID@].revived == 0 ==> old(h).st(ROOT_TID@) is Error) ==> final(h).wf(),
     { unimplemented!() }
     #[verifier::external_body]
     pub fn task(&self, tid: &str, Tracked(h): Tracked<&Heap>) -> (r: Option<Arc<Task>>)
@@ -463,84 +456,111 @@ pub open spec fn data_only(a: Heap, b: Heap) -> bool {
     &&& forall|t: Tid| #[trigger] a.has(t) ==> b.tasks[t] == (TaskAbs { data_rev: b.tasks[t].data_rev, ..a.tasks[t] })
     &&& b == (Heap { tasks: b.tasks, ..a })
 }
-// each "consequences" line of a stub above is implied by its exact clause; proved here once
-pub proof fn lemma_stub_consequences(a: Heap, t: Tid, k: Seq<char>, v: bool, x: Tid, node: Arc<Node>, prev: Option<Tid>, s: TaskState, e: Error, b2: Heap)
+// each "consequences" line of a stub above is implied by its exact clause; proved here (small lemmas)
+pub open spec fn meta_same(x: TaskAbs, y: TaskAbs) -> bool {
+    x.state == y.state && x.err == y.err && x.node == y.node && x.prev == y.prev && x.seq == y.seq && x.revived == y.revived && (catch_flag(x) ==> catch_flag(y))
+}
+// wf and fwd only look at (state, err, node, prev, seq, revived, catch flag) of each task, cur, proc_state, next_seq and the four logs
+pub proof fn lemma_meta(a: Heap, b: Heap)
+    requires
+        b.tasks.dom() == a.tasks.dom(), forall|t: Tid| #[trigger] a.has(t) ==> meta_same(a.tasks[t], b.tasks[t]),
+        b.proc_state == a.proc_state, b.next_seq == a.next_seq, b.hooks == a.hooks,
+        a.queue.is_prefix_of(b.queue) && a.task_events.is_prefix_of(b.task_events) && a.proc_events.is_prefix_of(b.proc_events) && a.msg_closed.is_prefix_of(b.msg_closed),
+        a.upserts.is_prefix_of(b.upserts) && a.messages.is_prefix_of(b.messages),
+    ensures fwd(a, b), a.wf() && b.has(b.cur) ==> b.wf(),
+{
+    assert forall|t: Tid| #[trigger] a.has(t) implies b.has(t) && task_fwd(a.tasks[t], b.tasks[t]) by {}
+    if a.wf() && b.has(b.cur) {
+        assert forall|y: Tid| #[trigger] b.has(y) implies (b.tasks[y].err is Some ==> b.st(y) is Error) && (b.tasks[y].node.s_kind() == NodeKind::Workflow <==> y == ROOT_TID@)
+            && (b.tasks[y].revived > 0 ==> catch_flag(b.tasks[y])) && b.tasks[y].seq < b.next_seq && prev_in(b, y) by { reveal(prev_in); assert(a.has(y)); assert(prev_in(a, y)); }
+        assert forall|y: Tid, p: Tid| #[trigger] b.has(y) && #[trigger] b.has(p) && b.tasks[y].prev == Some(p) implies b.tasks[p].seq < b.tasks[y].seq by { assert(a.has(y) && a.has(p)); }
+        if b.has(ROOT_TID@) { assert(a.has(ROOT_TID@)); }
+    }
+}
+pub proof fn lemma_stub_cur(a: Heap, t: Tid) requires a.has(t) ensures fwd(a, Heap { cur: t, ..a }), a.wf() ==> (Heap { cur: t, ..a }).wf()
+{ lemma_meta(a, Heap { cur: t, ..a }); }
+pub proof fn lemma_stub_flag(a: Heap, t: Tid, k: Seq<char>, v: bool)
+    requires a.has(t)
+    ensures fwd(a, Heap { tasks: a.tasks.insert(t, TaskAbs { flags: a.tasks[t].flags.insert(k, v), ..a.tasks[t] }), ..a }),
+            a.wf() && (k != consts::IS_CATCH_PROCESSED@ || v) ==> (Heap { tasks: a.tasks.insert(t, TaskAbs { flags: a.tasks[t].flags.insert(k, v), ..a.tasks[t] }), ..a }).wf(),
+{
+    let b = Heap { tasks: a.tasks.insert(t, TaskAbs { flags: a.tasks[t].flags.insert(k, v), ..a.tasks[t] }), ..a };
+    assert(b.tasks.dom() =~= a.tasks.dom());
+    assert forall|y: Tid| #[trigger] a.has(y) implies b.has(y) && task_fwd(a.tasks[y], b.tasks[y]) by {}
+    if k != consts::IS_CATCH_PROCESSED@ || v { lemma_meta(a, b); }
+}
+pub proof fn lemma_stub_data(a: Heap, b: Heap, t: Tid)
+    requires a.has(t), data_written(a, b, t) ensures fwd(a, b), a.wf() ==> b.wf(), b.cur == a.cur
+{ assert(b.tasks.dom() =~= a.tasks.dom()); lemma_meta(a, b); }
+pub proof fn lemma_stub_logs(a: Heap, t: Tid, s: TaskState, e: Error, m: (Seq<char>, Seq<char>, MessageStatus), act: Option<Action>)
     requires a.has(t)
     ensures
-        fwd(a, Heap { cur: t, ..a }) && (a.wf() ==> (Heap { cur: t, ..a }).wf()),
-        fwd(a, Heap { tasks: a.tasks.insert(t, TaskAbs { flags: a.tasks[t].flags.insert(k, v), ..a.tasks[t] }), ..a }),
-        a.wf() && (k != consts::IS_CATCH_PROCESSED@ || v) ==> (Heap { tasks: a.tasks.insert(t, TaskAbs { flags: a.tasks[t].flags.insert(k, v), ..a.tasks[t] }), ..a }).wf(),
-        data_written(a, b2, t) ==> fwd(a, b2) && (a.wf() ==> b2.wf()) && b2.cur == a.cur,
-        !a.has(x) ==> fwd(a, Heap { tasks: a.tasks.insert(x, fresh_task(node, prev, a.next_seq)), next_seq: a.next_seq + 1, ..a }),
-        !a.has(x) && (x == ROOT_TID@ <==> node.s_kind() == NodeKind::Workflow) && node.s_kind() != NodeKind::Workflow && a.wf() && (prev is Some ==> a.has(prev->Some_0))
-            ==> (Heap { tasks: a.tasks.insert(x, fresh_task(node, prev, a.next_seq)), next_seq: a.next_seq + 1, ..a }).wf(),
-        fwd(a, Heap { queue: a.queue.push(t), ..a }) && (a.wf() ==> (Heap { queue: a.queue.push(t), ..a }).wf()),
-        legal(a.proc_state, s) ==> fwd(a, Heap { proc_state: s, ..a }),
-        legal(a.proc_state, TaskState::Error) ==> fwd(a, Heap { proc_state: TaskState::Error, proc_err: Some(e), ..a }),
-        fwd(a, Heap { proc_events: a.proc_events.push(a.proc_state), ..a }),
-        // set_state / set_err
-        a.wf() && (legal(a.st(t), s) || catch_revive(a.tasks[t], s)) && !(t == ROOT_TID@ && a.st(t) is Error && s is Running)
-            ==> set_state_spec(a, t, s).wf() && fwd(a, set_state_spec(a, t, s)),
-        a.wf() && legal(a.st(t), TaskState::Error)
-            ==> set_state_spec(Heap { tasks: a.tasks.insert(t, TaskAbs { err: Some(e), ..a.tasks[t] }), ..a }, t, TaskState::Error).wf()
-                && fwd(a, set_state_spec(Heap { tasks: a.tasks.insert(t, TaskAbs { err: Some(e), ..a.tasks[t] }), ..a }, t, TaskState::Error)),
+        fwd(a, Heap { queue: a.queue.push(t), ..a }), a.wf() ==> (Heap { queue: a.queue.push(t), ..a }).wf(),
+        fwd(a, Heap { proc_events: a.proc_events.push(a.proc_state), ..a }), a.wf() ==> (Heap { proc_events: a.proc_events.push(a.proc_state), ..a }).wf(),
+        fwd(a, Heap { msg_closed: a.msg_closed.push(m), ..a }), a.wf() ==> (Heap { msg_closed: a.msg_closed.push(m), ..a }).wf(),
+        fwd(a, Heap { action: act, ..a }), a.wf() ==> (Heap { action: act, ..a }).wf(),
+        fwd(a, Heap { proc_state: s, ..a }), fwd(a, Heap { proc_state: TaskState::Error, proc_err: Some(e), ..a }),
 {
-    // wf only looks at cur, proc_state, next_seq and (state, err, node, prev, seq) of each task
-    let h0 = Heap { cur: t, ..a };
-    if a.wf() {
-        assert forall|y: Tid| #[trigger] h0.has(y) implies (h0.tasks[y].err is Some ==> h0.st(y) is Error) && (h0.tasks[y].node.s_kind() == NodeKind::Workflow <==> y == ROOT_TID@) && (h0.tasks[y].revived > 0 ==> catch_flag(h0.tasks[y])) && h0.tasks[y].seq < h0.next_seq && prev_in(h0, y) by { reveal(prev_in); assert(a.has(y)); assert(prev_in(a, y)); }
-        assert forall|y: Tid, p: Tid| #[trigger] h0.has(y) && #[trigger] h0.has(p) && h0.tasks[y].prev == Some(p) implies h0.tasks[p].seq < h0.tasks[y].seq by { reveal(prev_in); assert(a.has(y) && a.has(p)); }
-    }
-    let h1 = Heap { tasks: a.tasks.insert(t, TaskAbs { flags: a.tasks[t].flags.insert(k, v), ..a.tasks[t] }), ..a };
-    assert forall|y: Tid| #[trigger] a.has(y) implies h1.has(y) && task_fwd(a.tasks[y], h1.tasks[y]) by {}
-    if a.wf() && (k != consts::IS_CATCH_PROCESSED@ || v) {
-        assert forall|y: Tid| #[trigger] h1.has(y) implies (h1.tasks[y].err is Some ==> h1.st(y) is Error) && (h1.tasks[y].node.s_kind() == NodeKind::Workflow <==> y == ROOT_TID@) && (h1.tasks[y].revived > 0 ==> catch_flag(h1.tasks[y])) && h1.tasks[y].seq < h1.next_seq && prev_in(h1, y) by { reveal(prev_in); assert(a.has(y)); assert(prev_in(a, y)); }
-        assert forall|y: Tid, p: Tid| #[trigger] h1.has(y) && #[trigger] h1.has(p) && h1.tasks[y].prev == Some(p) implies h1.tasks[p].seq < h1.tasks[y].seq by { reveal(prev_in); assert(a.has(y) && a.has(p)); }
-    }
-    if data_written(a, b2, t) {
-        assert forall|y: Tid| #[trigger] a.has(y) implies b2.has(y) && task_fwd(a.tasks[y], b2.tasks[y]) by {}
-        if a.wf() {
-        assert forall|y: Tid| #[trigger] b2.has(y) implies (b2.tasks[y].err is Some ==> b2.st(y) is Error) && (b2.tasks[y].node.s_kind() == NodeKind::Workflow <==> y == ROOT_TID@) && (b2.tasks[y].revived > 0 ==> catch_flag(b2.tasks[y])) && b2.tasks[y].seq < b2.next_seq && prev_in(b2, y) by { reveal(prev_in); assert(a.has(y)); assert(prev_in(a, y)); }
-        assert forall|y: Tid, p: Tid| #[trigger] b2.has(y) && #[trigger] b2.has(p) && b2.tasks[y].prev == Some(p) implies b2.tasks[p].seq < b2.tasks[y].seq by { reveal(prev_in); assert(a.has(y) && a.has(p)); }
+    lemma_meta(a, Heap { queue: a.queue.push(t), ..a });
+    lemma_meta(a, Heap { proc_events: a.proc_events.push(a.proc_state), ..a });
+    lemma_meta(a, Heap { msg_closed: a.msg_closed.push(m), ..a });
+    lemma_meta(a, Heap { action: act, ..a });
+    let b1 = Heap { proc_state: s, ..a };
+    assert forall|y: Tid| #[trigger] a.has(y) implies b1.has(y) && task_fwd(a.tasks[y], b1.tasks[y]) by {}
+    let b2 = Heap { proc_state: TaskState::Error, proc_err: Some(e), ..a };
+    assert forall|y: Tid| #[trigger] a.has(y) implies b2.has(y) && task_fwd(a.tasks[y], b2.tasks[y]) by {}
+}
+pub proof fn lemma_stub_create(a: Heap, x: Tid, node: Arc<Node>, prev: Option<Tid>)
+    requires !a.has(x), (x == ROOT_TID@ <==> node.s_kind() == NodeKind::Workflow), prev is Some ==> a.has(prev->Some_0)
+    ensures fwd(a, Heap { tasks: a.tasks.insert(x, fresh_task(node, prev, a.next_seq)), next_seq: a.next_seq + 1, ..a }),
+            a.wf() && node.s_kind() != NodeKind::Workflow ==> (Heap { tasks: a.tasks.insert(x, fresh_task(node, prev, a.next_seq)), next_seq: a.next_seq + 1, ..a }).wf(),
+{
+    let b = Heap { tasks: a.tasks.insert(x, fresh_task(node, prev, a.next_seq)), next_seq: a.next_seq + 1, ..a };
+    assert forall|y: Tid| #[trigger] a.has(y) implies b.has(y) && task_fwd(a.tasks[y], b.tasks[y]) by {}
+    if a.wf() && node.s_kind() != NodeKind::Workflow {
+        assert forall|y: Tid| #[trigger] b.has(y) implies (b.tasks[y].err is Some ==> b.st(y) is Error) && (b.tasks[y].node.s_kind() == NodeKind::Workflow <==> y == ROOT_TID@)
+            && (b.tasks[y].revived > 0 ==> catch_flag(b.tasks[y])) && b.tasks[y].seq < b.next_seq && prev_in(b, y) by {
+            reveal(prev_in);
+            if y != x { assert(a.has(y)); assert(prev_in(a, y)); }
         }
-    }
-    if !a.has(x) {
-        let h2 = Heap { tasks: a.tasks.insert(x, fresh_task(node, prev, a.next_seq)), next_seq: a.next_seq + 1, ..a };
-        assert forall|y: Tid| #[trigger] a.has(y) implies h2.has(y) && task_fwd(a.tasks[y], h2.tasks[y]) by {}
-        if a.wf() && (x == ROOT_TID@ <==> node.s_kind() == NodeKind::Workflow) && node.s_kind() != NodeKind::Workflow && (prev is Some ==> a.has(prev->Some_0)) {
-        assert forall|y: Tid| #[trigger] h2.has(y) implies (h2.tasks[y].err is Some ==> h2.st(y) is Error) && (h2.tasks[y].node.s_kind() == NodeKind::Workflow <==> y == ROOT_TID@) && (h2.tasks[y].revived > 0 ==> catch_flag(h2.tasks[y])) && h2.tasks[y].seq < h2.next_seq && prev_in(h2, y) by { reveal(prev_in); if y != x { assert(a.has(y)); assert(prev_in(a, y)); } }
-        assert forall|y: Tid, p: Tid| #[trigger] h2.has(y) && #[trigger] h2.has(p) && h2.tasks[y].prev == Some(p) implies h2.tasks[p].seq < h2.tasks[y].seq by { reveal(prev_in); if y != x { assert(a.has(y)); assert(prev_in(a, y)); assert(p != x); assert(a.has(p)); } else { assert(p != x); assert(a.has(p)); } }
+        assert forall|y: Tid, p: Tid| #[trigger] b.has(y) && #[trigger] b.has(p) && b.tasks[y].prev == Some(p) implies b.tasks[p].seq < b.tasks[y].seq by {
+            reveal(prev_in);
+            if y != x { assert(a.has(y)); assert(prev_in(a, y)); assert(p != x); assert(a.has(p)); } else { assert(p != x); assert(a.has(p)); }
         }
+        if b.has(ROOT_TID@) { assert(a.has(ROOT_TID@)); }
+        assert(b.hooks == a.hooks);
     }
-    let h3 = Heap { queue: a.queue.push(t), ..a };
+}
+pub proof fn lemma_stub_set_state(a: Heap, t: Tid, s: TaskState)
+    requires a.has(t), legal(a.st(t), s) || catch_revive(a.tasks[t], s)
+    ensures fwd(a, set_state_spec(a, t, s)), a.wf() ==> set_state_spec(a, t, s).wf(),
+{
+    let g = set_state_spec(a, t, s);
+    assert forall|y: Tid| #[trigger] a.has(y) implies g.has(y) && task_fwd(a.tasks[y], g.tasks[y]) by {}
     if a.wf() {
-        assert forall|y: Tid| #[trigger] h3.has(y) implies (h3.tasks[y].err is Some ==> h3.st(y) is Error) && (h3.tasks[y].node.s_kind() == NodeKind::Workflow <==> y == ROOT_TID@) && (h3.tasks[y].revived > 0 ==> catch_flag(h3.tasks[y])) && h3.tasks[y].seq < h3.next_seq && prev_in(h3, y) by { reveal(prev_in); assert(a.has(y)); assert(prev_in(a, y)); }
-        assert forall|y: Tid, p: Tid| #[trigger] h3.has(y) && #[trigger] h3.has(p) && h3.tasks[y].prev == Some(p) implies h3.tasks[p].seq < h3.tasks[y].seq by { reveal(prev_in); assert(a.has(y) && a.has(p)); }
+        assert forall|y: Tid| #[trigger] g.has(y) implies (g.tasks[y].err is Some ==> g.st(y) is Error) && (g.tasks[y].node.s_kind() == NodeKind::Workflow <==> y == ROOT_TID@)
+            && (g.tasks[y].revived > 0 ==> catch_flag(g.tasks[y])) && g.tasks[y].seq < g.next_seq && prev_in(g, y) by { reveal(prev_in); assert(a.has(y)); assert(prev_in(a, y)); }
+        assert forall|y: Tid, p: Tid| #[trigger] g.has(y) && #[trigger] g.has(p) && g.tasks[y].prev == Some(p) implies g.tasks[p].seq < g.tasks[y].seq by { assert(a.has(y) && a.has(p)); }
     }
-    if a.wf() && (legal(a.st(t), s) || catch_revive(a.tasks[t], s)) && !(t == ROOT_TID@ && a.st(t) is Error && s is Running) {
-        let g = set_state_spec(a, t, s);
-        assert forall|y: Tid| #[trigger] a.has(y) implies g.has(y) && task_fwd(a.tasks[y], g.tasks[y]) by {}
-        assert forall|y: Tid| #[trigger] g.has(y) implies (g.tasks[y].err is Some ==> g.st(y) is Error) && (g.tasks[y].node.s_kind() == NodeKind::Workflow <==> y == ROOT_TID@) && (g.tasks[y].revived > 0 ==> catch_flag(g.tasks[y])) && g.tasks[y].seq < g.next_seq && prev_in(g, y) by { reveal(prev_in); assert(a.has(y)); assert(prev_in(a, y)); }
-        assert forall|y: Tid, p: Tid| #[trigger] g.has(y) && #[trigger] g.has(p) && g.tasks[y].prev == Some(p) implies g.tasks[p].seq < g.tasks[y].seq by { reveal(prev_in); assert(a.has(y) && a.has(p)); }
-    }
-    if a.wf() && legal(a.st(t), TaskState::Error) {
-        let a1 = Heap { tasks: a.tasks.insert(t, TaskAbs { err: Some(e), ..a.tasks[t] }), ..a };
-        let g = set_state_spec(a1, t, TaskState::Error);
-        assert forall|y: Tid| #[trigger] a.has(y) implies g.has(y) && task_fwd(a.tasks[y], g.tasks[y]) by {}
-        assert forall|y: Tid| #[trigger] g.has(y) implies (g.tasks[y].err is Some ==> g.st(y) is Error) && (g.tasks[y].node.s_kind() == NodeKind::Workflow <==> y == ROOT_TID@) && (g.tasks[y].revived > 0 ==> catch_flag(g.tasks[y])) && g.tasks[y].seq < g.next_seq && prev_in(g, y) by { reveal(prev_in); assert(a.has(y)); assert(prev_in(a, y)); }
-        assert forall|y: Tid, p: Tid| #[trigger] g.has(y) && #[trigger] g.has(p) && g.tasks[y].prev == Some(p) implies g.tasks[p].seq < g.tasks[y].seq by { reveal(prev_in); assert(a.has(y) && a.has(p)); }
+}
+pub proof fn lemma_stub_set_err(a: Heap, t: Tid, e: Error)
+    requires a.has(t), legal(a.st(t), TaskState::Error)
+    ensures fwd(a, set_state_spec(Heap { tasks: a.tasks.insert(t, TaskAbs { err: Some(e), ..a.tasks[t] }), ..a }, t, TaskState::Error)),
+            a.wf() ==> set_state_spec(Heap { tasks: a.tasks.insert(t, TaskAbs { err: Some(e), ..a.tasks[t] }), ..a }, t, TaskState::Error).wf(),
+{
+    let a1 = Heap { tasks: a.tasks.insert(t, TaskAbs { err: Some(e), ..a.tasks[t] }), ..a };
+    let g = set_state_spec(a1, t, TaskState::Error);
+    assert forall|y: Tid| #[trigger] a.has(y) implies g.has(y) && task_fwd(a.tasks[y], g.tasks[y]) by {}
+    if a.wf() {
+        assert forall|y: Tid| #[trigger] g.has(y) implies (g.tasks[y].err is Some ==> g.st(y) is Error) && (g.tasks[y].node.s_kind() == NodeKind::Workflow <==> y == ROOT_TID@)
+            && (g.tasks[y].revived > 0 ==> catch_flag(g.tasks[y])) && g.tasks[y].seq < g.next_seq && prev_in(g, y) by { reveal(prev_in); assert(a.has(y)); assert(prev_in(a, y)); }
+        assert forall|y: Tid, p: Tid| #[trigger] g.has(y) && #[trigger] g.has(p) && g.tasks[y].prev == Some(p) implies g.tasks[p].seq < g.tasks[y].seq by { assert(a.has(y) && a.has(p)); }
     }
 }
 pub proof fn lemma_data_only_fwd(a: Heap, b: Heap)
     requires data_only(a, b)
     ensures fwd(a, b), a.wf() ==> b.wf(), a.cur == b.cur
-{
-    assert forall|t: Tid| #[trigger] a.has(t) implies b.has(t) && task_fwd(a.tasks[t], b.tasks[t]) by {}
-    if a.wf() {
-        assert forall|y: Tid| #[trigger] b.has(y) implies (b.tasks[y].err is Some ==> b.st(y) is Error) && (b.tasks[y].node.s_kind() == NodeKind::Workflow <==> y == ROOT_TID@) && (b.tasks[y].revived > 0 ==> catch_flag(b.tasks[y])) && b.tasks[y].seq < b.next_seq && prev_in(b, y) by { reveal(prev_in); assert(a.has(y)); assert(prev_in(a, y)); }
-        assert forall|y: Tid, p: Tid| #[trigger] b.has(y) && #[trigger] b.has(p) && b.tasks[y].prev == Some(p) implies b.tasks[p].seq < b.tasks[y].seq by { assert(a.has(y) && a.has(p)); }
-    }
-}
+{ lemma_meta(a, b); }
 // TRUSTED: Vec::extend_from_slice appends (R7: `v.extend_from_slice(&e)` -> `vec_extend(&mut v, e)`)
 #[verifier::external_body]
 pub fn vec_extend<T: Clone>(v: &mut Vec<T>, e: Vec<T>) ensures final(v)@ == old(v)@ + e@ { unimplemented!() }
@@ -619,7 +639,8 @@ impl TimeoutLimit {
 //@@ end
     // model/act/timeout.rs: parse = regex `^(.*)(s|m|h|d)$` + i64 parse (regex engine: ASSUMED, uninterpreted result)
     #[verifier::external_body]
-    pub fn parse(expr: &str) -> (r: Result<TimeoutLimit>) ensures r == parse_limit(expr@) { unimplemented!() }
+    // plus the listed assumption that configured limits are small (otherwise `as_secs() * 1000` wraps)
+    pub fn parse(expr: &str) -> (r: Result<TimeoutLimit>) ensures r == parse_limit(expr@), r is Ok ==> limit_small(r->Ok_0) { unimplemented!() }
 }
 // TRUSTED: format!("{}{}", consts::IS_TIMEOUT_PROCESSED_PREFIX, on) (R7)
 #[verifier::external_body]
@@ -647,6 +668,52 @@ impl HooksMap {
 }
 pub open spec fn hooks_of(h: Heap, t: Tid) -> Map<TaskLifeCycle, Seq<StatementBatch>> {
     if h.hooks.dom().contains(t) { h.hooks[t] } else { Map::empty() }
+}
+//@@ extract file=acts/src/event/message.rs item="struct Model" name=Model
+//@@ opt dropderive=Clone,Default
+//@@ end
+//@@ extract file=acts/src/event/message.rs item="struct Message" name=Message
+//@@ opt dropderive=Clone,Default
+//@@ end
+pub open spec fn msg_allowed(h: Heap, t: Tid) -> bool {
+    !(h.st(t) is Pending) && !(h.st(t) is Running) && !(h.tasks[t].flags.dom().contains(consts::TASK_EMIT_DISABLED@) && h.tasks[t].flags[consts::TASK_EMIT_DISABLED@])
+}
+#[verifier::external_body]
+pub struct Emitter { _p: u8 }
+impl Runtime { #[verifier::external_body] pub fn emitter(&self) -> (r: &Emitter) { unimplemented!() } }
+impl Emitter {
+    // event/emitter.rs: emit_message hands the message to every registered channel handler (spawned): logged
+    #[verifier::external_body]
+    pub fn emit_message(&self, msg: &Message, Tracked(h): Tracked<&mut Heap>)
+        // monitor (C08-M1): a task message may be emitted only for a task that is neither pending nor running nor emit-disabled,
+        // and it carries the message state of the task's current state
+        requires old(h).has(msg.tid@), msg_allowed(*old(h), msg.tid@), msg.state == msg_state_of(old(h).st(msg.tid@))
+        ensures *final(h) == (Heap { messages: old(h).messages.push((msg.tid@, msg.state)), ..*old(h) }),
+                fwd(*old(h), *final(h)), old(h).wf() ==> final(h).wf(), final(h).cur == old(h).cur,     // consequences
+    { unimplemented!() }
+}
+impl CacheH {
+    // cache/cache.rs: upsert writes the task row (and patches the proc row): logged
+    #[verifier::external_body]
+    pub fn upsert(&self, task: &Arc<Task>, Tracked(h): Tracked<&mut Heap>) -> (r: Result<()>)
+        ensures *final(h) == (Heap { upserts: old(h).upserts.push(task.id@), ..*old(h) }),
+                fwd(*old(h), *final(h)), old(h).wf() ==> final(h).wf(), final(h).cur == old(h).cur,     // consequences
+    { unimplemented!() }
+}
+// R10: `X.unwrap_or_else(|err| error!(..))` -- the error is only logged
+#[verifier::external_body]
+pub fn ignore_err(r: Result<()>) { unimplemented!() }
+impl Task {
+    // task.rs: is_emit_disabled = data.get::<bool>("$emit_disabled").unwrap_or(false)
+    #[verifier::external_body]
+    pub fn is_emit_disabled(&self, Tracked(h): Tracked<&Heap>) -> (r: bool)
+        requires h.has(self.id@)
+        ensures r == (h.tasks[self.id@].flags.dom().contains(consts::TASK_EMIT_DISABLED@) && h.tasks[self.id@].flags[consts::TASK_EMIT_DISABLED@]) { unimplemented!() }
+    // task.rs: create_message (M2: field-by-field image of the task; proved separately)
+    #[verifier::external_body]
+    pub fn create_message(self: &Arc<Self>, Tracked(h): Tracked<&Heap>) -> (r: Message)
+        requires h.has(self.id@)
+        ensures r.tid@ == self.id@, r.state == msg_state_of(h.st(self.id@)) { unimplemented!() }
 }
 pub uninterp spec fn flag_as<T>(b: bool) -> T;      // a boolean data entry read at type T
 // TRUSTED: serde reads a JSON bool as the bool (Vars::get::<bool>)
